@@ -68,8 +68,12 @@ def run_case(case):
 
         rank = int(rng.integers(1, 5))
         shape = tuple(int(x) for x in rng.integers(1, 6, rank))
-        dt = ["float", "int", "ties", "ninf"][int(rng.integers(0, 4))]
-        if dt == "ninf":
+        dt = ["float", "int", "ties", "ninf", "near"][int(rng.integers(0, 5))]
+        if dt == "near":
+            # near ties: distinct values that agree to ~6 digits (inside any "isclose" tolerance,
+            # far above rounding): only the true maximiser has a value EQUAL to the maximum
+            a = rng.integers(1, 4, shape).astype(float) * (1.0 + rng.integers(-4, 5, shape) * (3e-7 if x64 else 6e-7))
+        elif dt == "ninf":
             # finite values mixed with -inf; sometimes every element is -inf (then the first
             # UNMASKED position attains the masked maximum -inf)
             a = np.where(rng.random(shape) < (1.0 if rng.random() < 0.3 else 0.5), -np.inf, rng.integers(0, 3, shape).astype(float))
@@ -164,7 +168,11 @@ def run_case(case):
         seg = np.repeat(np.arange(nseg), sizes)
         shape = (len(seg),) + tuple(int(x) for x in rng.integers(1, 5, rank - 1))
         ties = rng.random() < 0.4
+        near = (not ties) and rng.random() < 0.5
         data = rng.integers(0, 3, shape).astype(float) if ties else rng.normal(size=shape)
+        if near:  # near ties (see the unit cases): later rows slightly below / above earlier ones
+            data = rng.integers(1, 4, shape).astype(float) * (1.0 + rng.integers(-4, 5, shape) * (3e-7 if x64 else 6e-7))
+            add("segment_near_tie_cases")
         mode = int(rng.integers(0, 3))
         try:
             if mode == 0:
